@@ -18,6 +18,9 @@ struct RunOutcome {
 };
 
 RunOutcome run_check(const std::string &prop, const Plan &P, int tier);
+// wall-clock second (CLOCK_MONOTONIC) after which the image enumerations of engines B / C stop early (0 = never; replay and shrink never cut).
+// Only the amount of work is affected: every evaluated image is judged exactly as before, and the run hash covers the parent's event log only.
+extern double g_enumeration_deadline;
 bool check_known(const std::string &prop);
 extern const char *all_checks[];
 // progress hook (shrinker child): called before each crash image / altered image is evaluated
